@@ -7,6 +7,7 @@ import NrDaemon.Driver.Frame
 import NrDaemon.Driver.Lasp
 import NrDaemon.Driver.Proc
 import NrDaemon.Driver.Limiter
+import NrDaemon.Driver.Json
 /-!
   Op-line driver (core Lean only; built as a `lean_exe`).
 
@@ -34,6 +35,7 @@ def dispatch (st : DState) (line : String) (impl : Option String) : DState × St
   | some "lasp" => (st, laspStep t impl)
   | some "proc" => let (c, o) := procStep st.proc t impl; ({ st with proc := c }, o)
   | some "limiter" => let (c, o) := limiterStep st.lim t impl; ({ st with lim := c }, o)
+  | some "json" => (st, jsonStep t impl)
   | some "reset" => ({}, { model := "ok" })
   | _ => (st, { model := "bad-op" })
 
